@@ -10,9 +10,9 @@ use icy_engine::{
 
 pub const EXTS: [&str; 19] = ["ans", "ice", "diz", "icy", "idf", "bin", "xb", "tnd", "pcb", "avt", "asc", "adf", "msg", "an1", "an5", "an9", "seq", "ata", "xyz"];
 
-pub const DISK_FAULTS: [&str; 16] = [
+pub const DISK_FAULTS: [&str; 17] = [
     "short", "torn", "lost_sector", "stale_tail", "bitrot", "overwrite", "misdirected", "dup_sector", "misnamed", "sauce_tail_only", "comnt_cut", "header_extreme",
-    "number_extreme", "sauce_field_extreme", "sauce_text_bytes", "tdf_name_bytes",
+    "number_extreme", "sauce_field_extreme", "sauce_text_bytes", "tdf_name_bytes", "utf8_char_insert",
 ];
 
 /// Faults of the clipboard channel (bytes another process put there), on top of the generic ones.
@@ -178,14 +178,41 @@ pub fn big_font(rng: &mut Rng) -> Vec<u8> {
 /// "psf" / "tdf" / "pal" / "clip" for the other readers.
 pub fn base_file_ext(rng: &mut Rng, force: Option<&str>) -> (String, String, Vec<u8>) {
     let kind = match force {
-        None => rng.below(21),
+        None => rng.below(23),
         Some("psf") => 0,
+        Some("psf1") => 100,
         Some("tdf") => 2,
         Some("pal") => 4,
         Some("clip") => 6,
         Some(_) => 19,
     };
     match kind {
+        100 => {
+            // a PSF1 font (the sweeps want one of each header format)
+            let f = BitFont::from_ansi_font_page(rng.usize(42)).unwrap_or_default();
+            let mut v = vec![0x36, 0x04, 0, f.size.height as u8];
+            v.extend(f.convert_to_u8_data());
+            ("BitFont::from_bytes".into(), "font.psf".into(), v)
+        }
+        21 | 22 => {
+            // a captured session saved as a file: the loaders run the same parsers a terminal does
+            let (emu, ext): (&'static str, &str) = *rng.pick(&[
+                ("ansi", "ans"),
+                ("ansi", "ans"),
+                ("ansi", "ice"),
+                ("ansi", "diz"),
+                ("ansi", "xyz"),
+                ("avatar", "avt"),
+                ("pcboard", "pcb"),
+                ("ctrla", "msg"),
+                ("renegade", "an1"),
+                ("petscii", "seq"),
+                ("atascii", "ata"),
+                ("ascii", "asc"),
+            ]);
+            let bytes = crate::gen_term::stream_for_file(rng, emu);
+            ("Buffer::from_bytes".into(), format!("session.{ext}"), bytes)
+        }
         20 => {
             // a text file that announces itself as UTF-8 (byte order mark): the loaders then feed whole characters,
             // not bytes - from the far ends of the planes, and ones whose low 16 bits look like a surrogate
@@ -516,9 +543,42 @@ pub fn disk_fault(rng: &mut Rng, kind: &str, name: &mut String, bytes: &mut Vec<
             format!("dup_sector sector={a}")
         }
         "misnamed" => {
+            if rng.chance(1, 4) {
+                // odd names: upper case, no stem, trailing dot, double extension, non-ASCII, and names whose
+                // bytes are not UTF-8 (written hex:<bytes> in the trace)
+                const ODD: [&str; 12] = [
+                    "LOGO.ANS",
+                    ".ans",
+                    "logo.",
+                    "logo.tar.xb",
+                    "log\u{e9}.\u{e9}\u{e9}\u{e9}",
+                    "logo.an\u{a7}",
+                    "hex:6c6f676f2ee9e9e9",
+                    "hex:4c4f474f2e414ea7",
+                    "hex:e9e9e92e616e73",
+                    "hex:6c6f676f2eff",
+                    "a/b/c.icy",
+                    "..",
+                ];
+                *name = (*rng.pick(&ODD)).to_string();
+                return format!("misnamed as={name}");
+            }
             let ext = if rng.chance(1, 8) { "" } else { *rng.pick(&EXTS) };
             *name = if ext.is_empty() { "file".to_string() } else { format!("file.{ext}") };
             format!("misnamed as={name}")
+        }
+        "utf8_char_insert" => {
+            // a well-formed multi-byte character in the middle of a text line (a name typed with an accent, a
+            // pasted symbol): the file stays valid UTF-8, byte offsets inside the line stop being character offsets
+            if len == 0 {
+                return "utf8_char_insert noop".into();
+            }
+            let c = *rng.pick(&["\u{e9}", "\u{20ac}", "\u{1f600}", "\u{df}", "\u{2588}"]);
+            // near the start of a line more often than not
+            let starts: Vec<usize> = std::iter::once(0).chain(bytes.iter().enumerate().filter(|(_, b)| **b == b'\n').map(|(i, _)| i + 1)).filter(|i| *i <= len).collect();
+            let at = if rng.chance(3, 4) { (*rng.pick(&starts) + rng.usize(8)).min(len) } else { rng.usize(len + 1) };
+            bytes.splice(at..at, c.bytes());
+            format!("utf8_char_insert at={at} char={c}")
         }
         "sauce_tail_only" => {
             if len >= 128 {
@@ -738,7 +798,11 @@ pub fn gen_load(prop: &'static str, rng: &mut Rng, _run: u64, _thorough: bool) -
             let kind = if entry == "Layer::from_clipboard_data" && rng.chance(1, 2) {
                 *rng.pick(&IPC_FAULTS)
             } else if entry.starts_with("Palette::") && rng.chance(1, 3) {
-                "number_extreme"
+                if rng.chance(1, 2) {
+                    "number_extreme"
+                } else {
+                    "utf8_char_insert"
+                }
             } else if is_buffer && name.ends_with(".bin") && rng.chance(1, 3) {
                 // a .bin file has no header: its geometry is whatever the SAUCE record declares
                 "sauce_field_extreme"
@@ -851,8 +915,8 @@ pub fn enum_fault(bytes: &mut Vec<u8>, f: u64) -> Option<String> {
 
 /// Enumeration leg of C02: base file `b` (a function of the seed and b only) with its `f`-th single fault.
 /// The readers, in the order base files are dealt to them in the sweeps.
-pub const SWEEP_KINDS: [&str; 22] = [
-    "ans", "ice", "diz", "icy", "idf", "bin", "xb", "tnd", "pcb", "avt", "asc", "adf", "msg", "an1", "an5", "an9", "seq", "ata", "psf", "tdf", "pal", "clip",
+pub const SWEEP_KINDS: [&str; 23] = [
+    "ans", "ice", "diz", "icy", "idf", "bin", "xb", "tnd", "pcb", "avt", "asc", "adf", "msg", "an1", "an5", "an9", "seq", "ata", "psf", "tdf", "pal", "clip", "psf1",
 ];
 
 /// Truncation-only sweep: every prefix of a base file (quota = ENUM_MAX_LEN + 1 run indices per file).
